@@ -2,6 +2,7 @@ import PgVerif.Proofs.LRSound
 import PgVerif.Proofs.LineCol
 import PgVerif.Spec.Viable
 import PgVerif.Proofs.Viable
+import PgVerif.Model.Decode
 /-!
 # C10 — rejections are SyntaxErrors at the first offending token
 
@@ -93,6 +94,14 @@ theorem C10_viable_ends_correct (hin : InputOK inp) (hm : InputMono inp) (fuel :
     (h : viableEnds g inp fuel = some l) (j : Nat) :
     j ∈ l ↔ j ≤ inp.len ∧ (j = 0 ∨ PrefixSeq g inp [.nt g.start] 0 j) :=
   viableEnds_correct hin hm fuel l h j
+
+/-- The same for every input the compiled driver decodes from a dump (`InputOK` and `InputMono` are
+theorems about the decoder). -/
+theorem C10_viable_ends_correct_on_decoded_data (len : Nat) (skips : Array Nat)
+    (ms : List (Nat × Nat × Nat)) (hsk : skips.size = len + 1) (fuel : Nat) (l : List Nat)
+    (h : viableEnds g (Input.ofTables len skips ms) fuel = some l) (j : Nat) :
+    j ∈ l ↔ j ≤ len ∧ (j = 0 ∨ PrefixSeq g (Input.ofTables len skips ms) [.nt g.start] 0 j) :=
+  viableEnds_correct (Input.ofTables_ok len skips ms hsk) (Input.ofTables_mono len skips ms) fuel l h j
 
 /-- The reported line and column determine the position (string inputs). -/
 theorem C10_linecol_inverse (text : List Nat) (pos : Nat) (h : pos ≤ text.length) :
